@@ -30,7 +30,7 @@ Lemma solo_acquire_proof :
             | (s', None) => (s', refused th)
             end).
 Proof.
-  intros tid [l c m a w lk lz] [pr pc hd cr cw pd rs] k rest K L P PR. cbn in L, P, PR. subst lk pc pr.
+  intros tid [l c m a w lk lz ml bk] [pr pc hd cr cw pd rs] k rest K L P PR. cbn in L, P, PR. subst lk pc pr.
   unfold acquire_seq. cbn [lvl aw].
   destruct (l =? 0) eqn:E0; destruct (l =? 1) eqn:E1; destruct (l =? 3) eqn:E3; destruct (0 <? w) eqn:EW;
     destruct k; try congruence; unfold requires_sync; cbn [acq_op lvl aw ar cur minv]; rewrite ?E0, ?E1, ?E3, ?EW; cbn [negb orb andb];
@@ -50,7 +50,7 @@ Lemma solo_release_proof :
       Some (release_seq s (tk t),
             Th rest Idle (remove_nth i (held th)) (cache_r th) (cache_w th) [] (res th)).
 Proof.
-  intros tid [l c m a w lk lz] [pr pc hd cr cw pd rs] i t rest L P PD PR H K.
+  intros tid [l c m a w lk lz ml bk] [pr pc hd cr cw pd rs] i t rest L P PD PR H K.
   cbn in L, P, PD, PR, H. subst lk pc pd pr. cbn [held cache_r cache_w res].
   unfold release_seq. cbn [lvl ar aw cur minv set_ar set_aw].
   remember (dec64 a) as da. remember (dec64 w) as dw.
